@@ -172,6 +172,8 @@ class World:
         self.inflight = []        # per O->H message: ("refs", [k..], disc) | ("ack",)
         self.inflight_ho = []     # per H->O message: ("decref",) | ("home", pid, k, iscall)
         self.lost = False
+        self.freed_in_use = set() # clids whose import-table entry was deleted by a decref answer while its tracker was in use
+        self.disc_count = {}      # object key -> number of references sent in calls the receiver discards
         self.clid_obj = {}        # every clid ever seen in O's export table -> object key
         self.max_clid = 0
         tr0 = self.O.getTrackerForMyReference(self.otarget.processUniqueID(), self.otarget); tr0.send()
@@ -232,6 +234,9 @@ class World:
         self.rrO.callRemoteOnly("m", "notint" if disc else 7, payload)
         del payload
         ops = [("Send", k, bool(disc)) for k in ks]
+        if disc:
+            for k in ks:
+                self.disc_count[k] = self.disc_count.get(k, 0) + 1
         self.tO.endmsg()
         self.inflight.append(("refs", list(ks), bool(disc)))
         self.turn()
@@ -242,7 +247,13 @@ class World:
             return [], None
         info = self.inflight.pop(0)
         data = self.tO.q.pop(0)
+        before = dict(self.H.yourReferenceByCLID) if info[0] == "ack" else {}
         self.H.dataReceived(data)          # unslicing (getRef) happens here, before the eventual queue runs
+        for c, t in before.items():
+            # D16's root event: the answer to a decref removed the import-table entry of a tracker that is in use
+            if self.H.yourReferenceByCLID.get(c) is not t and (t.received_count > 0 or (t.ref is not None and t.ref() is not None)):
+                self.freed_in_use.add(c)
+        del before
         nops = len(info[1]) if info[0] == "refs" else 1
         ops = [("RecvOH",)] * nops
         self.turn()
@@ -261,20 +272,26 @@ class World:
                     self.problems.append(("oracle/not-delivered", "call with %d references delivered as %r" % (len(ks), got)))
                     obs = []
                 else:
-                    proxies = got[0]
+                    proxies = list(got[0])
+                    bad = [i for i, p in enumerate(proxies) if not isinstance(p, referenceable.RemoteReference)]
+                    for i in bad:
+                        self.problems.append(("oracle/identity-lost", "object %d was delivered as %r" % (ks[i], proxies[i])))
+                    if bad:
+                        # nothing sensible can be registered for this delivery
+                        ks = [k for i, k in enumerate(ks) if i not in bad]
+                        proxies = [p for i, p in enumerate(proxies) if i not in bad]
                     # C08 direct oracle: same object while held -> same proxy; different objects -> different proxies
                     for p, k in zip(proxies, ks):
                         holders = [q for q, kk in self.obj_of.items() if kk == k and q in self.held]
                         if holders and not any(self.held[q] is p for q in holders):
-                            self.problems.append(("oracle/different-proxy-while-held",
+                            d16 = any(self.held[q].tracker.clid in self.freed_in_use for q in holders)
+                            self.problems.append(("oracle/different-proxy-while-held" + ("/after-decref-answer-freed-tracker-in-use" if d16 else ""),
                                                   "object %d was delivered as a new proxy although proxy %r for it is still "
                                                   "held by the receiver" % (k, holders)))
                         for q, hp in self.held.items():
                             if hp is p and self.obj_of[q] != k:
                                 self.problems.append(("oracle/proxy-shared-by-objects",
                                                       "objects %d and %d were delivered as the same proxy" % (k, self.obj_of[q])))
-                        if not isinstance(p, referenceable.RemoteReference):
-                            self.problems.append(("oracle/identity-lost", "object %d was delivered as %r" % (k, p)))
                     obs = self._register(proxies, ks)
                     del proxies
             del got[:]
@@ -436,7 +453,7 @@ class World:
                 else:
                     self.a_oh()
             self.audit()
-        left = {c: t.refcount for c, t in self.O.myReferenceByCLID.items() if t.obj is not self.otarget}
+        left = {self.key_of(t.obj): t.refcount for c, t in self.O.myReferenceByCLID.items() if t.obj is not self.otarget}
         wr = {k: weakref.ref(o) for k, o in self.objs.items() if k}
         self.objs = {0: self.otarget}
         gc.collect()
@@ -552,13 +569,16 @@ class Recorder:
         left, pinned = W.finish(self.discarded)
         problems = list(W.problems)
         if (left or pinned) and not W.lost:
-            if self.discarded:
+            if left == W.disc_count and pinned == sorted(left):
+                # exactly the references that were sent in discarded calls (D9), nothing else
                 problems.append(("oracle/leak-after-discarded-call",
-                                 "after every proxy was dropped and all traffic drained, the owner still holds %r (objects %r stay "
-                                 "pinned); the history contains a call whose my-reference the receiver discarded" % (left, pinned)))
+                                 "after every proxy was dropped and all traffic drained, the owner still holds {object: refcount} = %r "
+                                 "(objects %r stay pinned): exactly the my-references of calls the receiver discarded after a Violation "
+                                 "on an earlier argument" % (left, pinned)))
             else:
-                problems.append(("oracle/leak", "after every proxy was dropped and all traffic drained, the owner still holds %r "
-                                 "(objects %r stay pinned)" % (left, pinned)))
+                problems.append(("oracle/leak", "after every proxy was dropped and all traffic drained, the owner still holds "
+                                 "{object: refcount} = %r (objects %r stay pinned); references in discarded calls: %r"
+                                 % (left, pinned, W.disc_count)))
         if W.lost and pinned:
             problems.append(("oracle/table-survives-connection-loss", "objects %r stay pinned after connectionLost" % (pinned,)))
         W.close()
@@ -568,7 +588,8 @@ class Recorder:
 
 # signatures of the direct oracle, by property
 SIG_PROPERTY = {
-    "oracle/different-proxy-while-held": "C08", "oracle/proxy-shared-by-objects": "C08", "oracle/identity-lost": "C08",
+    "oracle/different-proxy-while-held": "C08", "oracle/different-proxy-while-held/after-decref-answer-freed-tracker-in-use": "C08",
+    "oracle/proxy-shared-by-objects": "C08", "oracle/identity-lost": "C08",
     "oracle/home-not-original": "C08", "oracle/home-not-delivered": "C08", "oracle/call-misrouted": "C08",
     "oracle/not-delivered": "C08",
     "oracle/released-early": "C09", "oracle/clid-reused": "C09", "oracle/decref-exceeds-refcount": "C09",
